@@ -17,7 +17,7 @@ from ..core.tables import FiniteEval, Opaque
 from ..stencil import kernels
 from ..stencil.alg import Aff, Lin, Rat, idx_key, fmt_atom, Fr
 from ..stencil.interp import subst_lin
-from ..core.template import find, has, require
+from ..core.template import find, has, require, same
 
 LEVEL = 'other'
 SIMS = 'emg3d/simulations.py'
@@ -342,6 +342,27 @@ def adjoint_sources(ctx):
               'missing observations are not skipped before an adjoint '
               'source is created (NaN would enter the source field)',
               ctx.where(sm, loop[0]))
+    # ... and ONLY those: every other receiver gets its source.  No other
+    # exit from the loop, and no return ahead of it unless its guard says that
+    # there is nothing to back-propagate at all (all NaN / empty)
+    jumps = [n for n in ast.walk(loop[0]) if isinstance(
+        n, (ast.Continue, ast.Break, ast.Return)) and not (
+            ok and n in ast.walk(first))]
+    early = [n for n in ast.walk(fn) if isinstance(n, ast.Return) and
+             n is not fn.body[-1] and n not in ast.walk(loop[0])]
+
+    def harmless(ret):
+        from ..core.canon import negate
+        gs = [t if pol else negate(t) for t, pol in au.guards_of(ret, fn)]
+        pats = ('np.isnan(_x_).all()', 'np.all(np.isnan(_x_))',
+                '_x_.size == 0', 'len(_x_) == 0', 'not np.isfinite(_x_).any()',
+                'not np.any(np.isfinite(_x_))')
+        return any(any(same(p_, g) is not None for p_ in pats) for g in gs)
+    bad = jumps + [n for n in early if not harmless(n)]
+    ctx.check('C07.AS.nan', '_get_rfield: only NaN residuals are left out',
+              not bad, 'an exit that is not the per-receiver NaN skip leaves '
+              'receivers with data without adjoint source (their part of '
+              'J^T r is dropped)', ctx.where(sm, bad[0] if bad else fn))
     r_ = find(f'_r_ = self.data.residual.loc[{ps[1]}, :, {ps[2]}].data', fn)
     w_ = find(f'_w_ = self.data.weights.loc[{ps[1]}, :, {ps[2]}].data', fn)
     ctx.check('C07.AS.source', '_get_rfield: residual and weights of this '
